@@ -637,14 +637,22 @@ def rule_K4(run: Run, prog: Program) -> int:
                 continue
             # walk the super().__apply__ chain from the resolved implementation down to (and including) class k
             cur, ok, seen = ap, False, set()
+            stale = None
             while cur is not None and cur.qualname not in seen:
                 seen.add(cur.qualname)
                 rn = _returned_names(cur)
+                cps = cur.params()
+                cself = cps[0].arg if cps else "self"
+                ctr = cps[1].arg if len(cps) > 1 else None
                 for st in walk_no_nested(cur.node):
                     if isinstance(st, ast.Assign):
                         for t in st.targets:
                             if isinstance(t, ast.Attribute) and t.attr == a and isinstance(t.value, ast.Name) and t.value.id in rn:
                                 ok = True
+                                in_slices = {id(y) for x in ast.walk(st.value) if isinstance(x, ast.Subscript) for y in ast.walk(x.slice)}
+                                used = {x.id for x in ast.walk(st.value) if isinstance(x, ast.Name) and id(x) not in in_slices}
+                                if cself in used and not (used & rn) and ctr not in used:
+                                    stale = (cur, st)
                 if ok:
                     break
                 calls_super = any(
@@ -659,7 +667,13 @@ def rule_K4(run: Run, prog: Program) -> int:
                     break
                 cur = prog.lookup_after(s, cur.cls, "__apply__")
             memo = (a in k.methods and "cached_property" in k.methods[a].decorators) or (k.qualname, a) in MEMO_ATTRS
-            if ok:
+            if ok and stale is not None:
+                sf, sst = stale
+                run.add("E6.K4", s.name, f"__apply__ moves {a}", VIOLATION,
+                        f"{sf.short} re-assigns `{a}` on the transformed object from the UNTRANSFORMED receiver only (`{norm_stmt(sst)[:80]}` uses "
+                        f"neither the result nor the transformation): the transformed {s.name} keeps the supporting {a.strip('_')} of the original",
+                        f"{sf.module.rel}:{sst.lineno}")
+            elif ok:
                 run.add("E6.K4", s.name, f"__apply__ moves {a}", PROVEN, f"{ap.short} chain re-assigns {a} on the result", ap.loc)
             elif memo:
                 run.add("E6.K4", s.name, f"__apply__ moves {a}", VIOLATION,
@@ -781,4 +795,123 @@ def rule_K6(run: Run, prog: Program) -> int:
                 run.add("E6.K6", fn.short, label, VIOLATION,
                         f"`{label}` returns `{node.body[0].value.id}` unchanged as soon as ONE element satisfies the condition: in a collection that "
                         f"mixes such elements with others the remaining elements are never processed", loc)
+    return n
+
+
+# ------------------------------------------------------------------------------------------------ K7: dtype of assembled buffers
+BUFFER_MAKERS = {"eye", "zeros", "ones", "empty", "full", "identity"}
+LIKE_MAKERS = {"zeros_like", "ones_like", "empty_like", "full_like"}
+
+
+def _tests_of(fn: FunctionInfo) -> list[str]:
+    out = []
+    for st in walk_no_nested(fn.node):
+        if isinstance(st, ast.If):
+            t = ast.unparse(st.test)
+            if t not in out:
+                out.append(t)
+    return out
+
+
+def _linearise(body, truth: dict[str, bool]) -> list[ast.stmt]:
+    out = []
+    for st in body:
+        if isinstance(st, ast.If):
+            arm = st.body if truth.get(ast.unparse(st.test), True) else st.orelse
+            out += _linearise(arm, truth)
+        elif isinstance(st, (ast.For, ast.While, ast.With)):
+            out += _linearise(st.body, truth)
+        elif isinstance(st, ast.Try):
+            out += _linearise(st.body, truth)
+        elif isinstance(st, (ast.Return, ast.Raise)):
+            out.append(st)
+            break
+        else:
+            out.append(st)
+    return out
+
+
+def rule_K7(run: Run, prog: Program) -> int:
+    run.rule(
+        "E6.K7",
+        "a buffer assembled by item assignment (np.eye/zeros/empty(..., dtype=D); buf[...] = V) gets a dtype D that depends on EVERY "
+        "parameter whose data is stored into it: if D is computed from one operand only, the other operand is silently cast "
+        "(an integer matrix with a fractional offset is truncated). Decided per path, with equal `if` tests treated as correlated.",
+    )
+    n = 0
+    for fn in prog.package_functions():
+        if fn.parent is not None:
+            continue
+        params = set(fn.param_names())
+        tests = _tests_of(fn)
+        if len(tests) > 7:
+            continue
+        # quick filter: does the function create a buffer with a non-constant dtype?
+        has = False
+        for node in walk_no_nested(fn.node):
+            if isinstance(node, ast.Call) and isinstance(node.func, ast.Attribute) and node.func.attr in BUFFER_MAKERS | LIKE_MAKERS:
+                has = True
+        if not has:
+            continue
+        findings: dict[str, tuple] = {}
+        proven: dict[str, tuple] = {}
+        for mask in range(1 << len(tests)):
+            truth = {t: bool(mask >> i & 1) for i, t in enumerate(tests)}
+            deps: dict[str, set[str]] = {p: {p} for p in params}  # name -> parameters it depends on
+            bufs: dict[str, tuple[set[str], ast.stmt]] = {}
+            for st in _linearise(fn.node.body, truth):
+                def dep_of(e: ast.AST) -> set[str]:
+                    out: set[str] = set()
+                    for x in ast.walk(e):
+                        if isinstance(x, ast.Name) and x.id in deps:
+                            out |= deps[x.id]
+                    return out
+
+                if isinstance(st, ast.Assign) and len(st.targets) == 1:
+                    tgt, val = st.targets[0], st.value
+                    if isinstance(tgt, ast.Name):
+                        made = None
+                        if isinstance(val, ast.Call) and isinstance(val.func, ast.Attribute):
+                            mk = val.func.attr
+                            if mk in BUFFER_MAKERS:
+                                d = next((k.value for k in val.keywords if k.arg == "dtype"), None)
+                                if d is None and mk in ("zeros", "ones", "empty") and len(val.args) >= 2:
+                                    d = val.args[1]
+                                if d is not None and dep_of(d):
+                                    made = dep_of(d)
+                            elif mk in LIKE_MAKERS and val.args and not any(k.arg == "dtype" for k in val.keywords):
+                                if dep_of(val.args[0]):
+                                    made = dep_of(val.args[0])
+                        if made is not None:
+                            bufs[tgt.id] = (made, st)
+                        else:
+                            bufs.pop(tgt.id, None)
+                        deps[tgt.id] = dep_of(val)
+                    elif isinstance(tgt, (ast.Tuple, ast.List)):
+                        d = dep_of(val)
+                        for x in ast.walk(tgt):
+                            if isinstance(x, ast.Name):
+                                deps[x.id] = d
+                                bufs.pop(x.id, None)
+                    elif isinstance(tgt, ast.Subscript) and isinstance(tgt.value, ast.Name) and tgt.value.id in bufs:
+                        pd, cst = bufs[tgt.value.id]
+                        pv = dep_of(val) - {fn.params()[0].arg if fn.cls is not None and not fn.is_staticmethod and fn.params() else ""}
+                        key = norm_stmt(st)
+                        if pv and not pv <= pd:
+                            findings[key] = (st, cst, sorted(pv - pd), sorted(pd))
+                        else:
+                            proven.setdefault(key, (st, cst))
+                elif isinstance(st, ast.AugAssign) and isinstance(st.target, ast.Name):
+                    deps[st.target.id] = deps.get(st.target.id, set()) | dep_of(st.value)
+        for key, (st, cst, missing, pd) in findings.items():
+            n += 1
+            run.add("E6.K7", fn.short, key, VIOLATION,
+                    f"`{key[:70]}` stores data derived from {missing} into a buffer whose dtype (`{norm_stmt(cst)[:70]}`) is computed from "
+                    f"{pd} only on some path: values of a wider dtype (fractional into integer, complex into real) are silently truncated",
+                    f"{fn.module.rel}:{st.lineno}")
+        for key, (st, cst) in proven.items():
+            if key in findings:
+                continue
+            n += 1
+            run.add("E6.K7", fn.short, key, PROVEN, "buffer dtype depends on every parameter whose data is stored", f"{fn.module.rel}:{st.lineno}")
     return n
